@@ -1141,6 +1141,9 @@ func (self *LockManager) ProcessLockData(command *protocol.LockCommand, lock *Lo
 					i += 4
 					continue
 				}
+				if valueLen < 0 || i+4+valueLen > len(self.currentData.data) {
+					break
+				}
 				values = append(values, self.currentData.data[i+4:i+4+valueLen])
 				i += valueLen + 4
 			}
@@ -1365,6 +1368,9 @@ func (self *LockManager) ProcessRecoverLockData(lock *Lock) {
 				if valueLen == 0 {
 					i += 4
 					continue
+				}
+				if valueLen < 0 || i+4+valueLen > len(self.currentData.data) {
+					break
 				}
 				values = append(values, self.currentData.data[i+4:i+4+valueLen])
 				i += valueLen + 4
